@@ -73,6 +73,11 @@ def _merge_stubs_members(obj: Module | Class, stubs: Module | Class) -> None:
             if stub_member.is_alias:
                 continue
             obj_member = obj.get_member(member_name)
+            # Stubs can be merged twice (the loader merges the stubs of a package's init module
+            # when registering them, then again once their submodules are loaded): members added
+            # by the first merge are the same objects on both sides, there is nothing to merge.
+            if obj_member is stub_member:
+                continue
             with suppress(AliasResolutionError, CyclicAliasError):
                 # An object's canonical location can differ from its equivalent stub location.
                 # Devs usually declare stubs at the public location of the corresponding object,
